@@ -4,3 +4,4 @@ INVARIANT ModelProcessCrash
 INVARIANT RecAcked
 INVARIANT RecNothingElse
 INVARIANT RecAtomic
+INVARIANT RecFollow
